@@ -293,7 +293,9 @@ qb_log_target_format_static(int32_t target, const char * format,
 					     (t->max_line_length -
 					      output_buffer_idx));
 			output_buffer_idx += len;
-			format_buffer_idx += 1;
+			if (format[format_buffer_idx] != '\0') {
+				format_buffer_idx += 1;
+			}
 		}
 		if (output_buffer_idx >= t->max_line_length - 1) {
 			break;
@@ -437,7 +439,9 @@ qb_log_target_format(int32_t target,
 					     (t->max_line_length -
 					      output_buffer_idx));
 			output_buffer_idx += len;
-			format_buffer_idx += 1;
+			if (t->format[format_buffer_idx] != '\0') {
+				format_buffer_idx += 1;
+			}
 		}
 		if (output_buffer_idx >= t->max_line_length - 1) {
 			break;
